@@ -1096,20 +1096,20 @@ func runL1History(g *gen, mode string, nops int, hstats map[string]int, faulty, 
 			&kop{kind: "delhist", h: hM, before: t(2)}, &kop{kind: "list"})
 		hstats["script_fork"]++
 	}
-	if !faulty && !crashy && mode != "rows" && len(script) == 0 && g.r.Intn(4) == 0 {
+	if !faulty && !crashy && mode != "rows" && len(script) == 0 && g.x().Intn(4) == 0 {
 		// the version of the still-empty table is the EMPTY list of version names: an open restricted
 		// to it is an empty tree (not "no restriction"), whatever has been committed since, and the
 		// diff of the current contents against it reports every key
 		h0, hE, hR := nextH, nextH+1, nextH+2
 		nextH += 3
-		script = append(script, &kop{kind: "open", h: h0, when: baseTime - 4000000000, seed: g.r.Int63n(1000000)})
+		script = append(script, &kop{kind: "open", h: h0, when: baseTime - 4000000000, seed: g.x().Int63n(1000000)})
 		for i, k := range keys {
-			script = append(script, &kop{kind: "set", h: h0, key: k, when: baseTime + int64(i%8)*10, pval: int64(g.r.Intn(50))})
+			script = append(script, &kop{kind: "set", h: h0, key: k, when: baseTime + int64(i%8)*10, pval: int64(g.x().Intn(50))})
 		}
 		script = append(script, &kop{kind: "commit", h: h0},
-			&kop{kind: "open", h: hE, ro: true, only: []string{}, when: baseTime - 3000000000, seed: g.r.Int63n(1000000)},
+			&kop{kind: "open", h: hE, ro: true, only: []string{}, when: baseTime - 3000000000, seed: g.x().Int63n(1000000)},
 			&kop{kind: "dump", h: hE},
-			&kop{kind: "open", h: hR, ro: true, when: baseTime - 2000000000, seed: g.r.Int63n(1000000)},
+			&kop{kind: "open", h: hR, ro: true, when: baseTime - 2000000000, seed: g.x().Int63n(1000000)},
 			&kop{kind: "diff", h: hR, h2: hE}, &kop{kind: "diff", h: hE, h2: hR})
 		hstats["script_empty_version"]++
 	}
@@ -1199,10 +1199,13 @@ func runL1History(g *gen, mode string, nops int, hstats map[string]int, faulty, 
 			op.when = baseTime + int64(g.r.Intn(6))*1000000000 - 3000000000
 			op.seed = g.r.Int63n(1000000)
 			if op.ro && len(known) > 0 && g.r.Intn(2) == 0 {
-				n := g.r.Intn(3) // 0: the version of the still-empty table ([]): an empty tree, not "no restriction"
+				n := 1 + g.r.Intn(2)
 				op.only = []string{}
 				for i := 0; i < n; i++ {
 					op.only = append(op.only, w.nm.nm(known[g.r.Intn(len(known))]))
+				}
+				if g.x().Intn(4) == 0 {
+					op.only = []string{} // the version of the still-empty table: an empty tree, not "no restriction"
 				}
 			}
 		case choice < 44:
@@ -1269,7 +1272,7 @@ func runL1History(g *gen, mode string, nops int, hstats map[string]int, faulty, 
 					ki, kb = int64(f), 0
 				}
 			}
-			sub := &gen{rand.New(rand.NewSource(op.when*131 + ki*17 + int64(len(op.key.bs))*5 + kb))}
+			sub := &gen{r: rand.New(rand.NewSource(op.when*131 + ki*17 + int64(len(op.key.bs))*5 + kb))}
 			if mode == "rows" {
 				op.row = sub.row(ncols, true)
 			} else {
@@ -1446,7 +1449,7 @@ func runL1History(g *gen, mode string, nops int, hstats map[string]int, faulty, 
 }
 
 func runL1(seed int64, n int, dir string, modes []string, faulty, crashy bool) error {
-	g := &gen{rand.New(rand.NewSource(seed))}
+	g := &gen{r: rand.New(rand.NewSource(seed))}
 	cf, err := os.Create(dir + "/cases.txt")
 	if err != nil {
 		return err
